@@ -13,13 +13,15 @@
 //! probed; after every flush/save/reload/clear and every 25 operations the
 //! complete enumeration and the counts are compared with the model.
 //!
-//! Re-runnable slices: `--only-kind index-short|index-long|residency-db|residency-container|residency-batch`
+//! Re-runnable slices: `--only-kind index-short|index-long|residency-db|residency-container|residency-batch|update-section|dynamic-container`
 //! `--only-history N`, `--scale PERCENT`, `--threads N`; `--replay FILE` re-runs the recorded history.
 
-use cascette_client_storage::container::{AccessMode, Container, ResidencyContainer};
-use cascette_client_storage::index::{IndexManager, UpdateStatus};
+use cascette_client_storage::container::{AccessMode, Container, DynamicContainer, ResidencyContainer};
+use cascette_client_storage::index::update::{UpdateEntry, UpdatePage, UpdateSection};
+use cascette_client_storage::index::{ArchiveLocation, IndexManager, UpdateStatus};
 use cascette_client_storage::kmt::key_state::ResidencyDb;
-use cascette_crypto::EncodingKey;
+use cascette_client_storage::StorageError;
+use cascette_crypto::{ContentKey, EncodingKey};
 use serde_json::{Value, json};
 use std::cell::RefCell;
 use std::collections::{BTreeMap, BTreeSet};
@@ -28,7 +30,7 @@ use std::sync::atomic::{AtomicUsize, Ordering};
 use vh::{Ctx, Rng, fnv64, mix64};
 
 const SECTION_CAP: usize = 60 * 21;
-const KINDS: [&str; 5] = ["index-long", "residency-batch", "index-short", "residency-db", "residency-container"];
+const KINDS: [&str; 7] = ["index-long", "residency-batch", "index-short", "residency-db", "residency-container", "update-section", "dynamic-container"];
 
 thread_local! {
     static LAST_PANIC: RefCell<Option<(String, String)>> = const { RefCell::new(None) };
@@ -262,6 +264,12 @@ impl IdxRun<'_> {
         if has != got.is_some() {
             return Some(("has_entry-disagrees-with-lookup", json!({"key": hex::encode(k9), "has_entry": has, "lookup_some": got.is_some()})));
         }
+        // the other lookup entry point (16 key bytes handed over as a ContentKey) searches the same index with the
+        // same nine-byte truncation: it is a lookup of the key in the local index and must give the same answer
+        let by_ck = self.im.lookup_by_content_key(&ContentKey::from_bytes(*ek.as_bytes()));
+        if by_ck != got {
+            return Some(("lookup_by_content_key-disagrees-with-lookup", json!({"key": hex::encode(k9), "lookup": got.as_ref().map(|g| (g.archive_id(), g.archive_offset(), g.size)), "lookup_by_content_key": by_ck.as_ref().map(|g| (g.archive_id(), g.archive_offset(), g.size))})));
+        }
         match (exp, got) {
             (None, None) => None,
             (Some(e), Some(g)) => {
@@ -347,16 +355,35 @@ impl IdxRun<'_> {
         }
     }
 
-    fn reload(&mut self, rt: &tokio::runtime::Runtime, dir: &Path) -> bool {
+    /// `per_file`: load every `<bucket:02x><version:08x>.idx` of the directory through the public per-file entry
+    /// point `load_index(bucket, path)` instead of the directory scan `load_all` — the same files, the same map.
+    fn reload(&mut self, rt: &tokio::runtime::Runtime, dir: &Path, per_file: bool) -> bool {
         let mut fresh = IndexManager::new(dir);
-        match rt.block_on(fresh.load_all()) {
+        let res = if per_file {
+            self.h.stats.add("index.ops.reload_via_load_index", 1);
+            let mut files: Vec<(u8, std::path::PathBuf)> = Vec::new();
+            if let Ok(rd) = std::fs::read_dir(dir) {
+                for e in rd.flatten() {
+                    let name = e.file_name().to_string_lossy().to_string();
+                    if name.len() == 14 && name.ends_with(".idx") {
+                        if let Ok(b) = u8::from_str_radix(&name[..2], 16) {
+                            files.push((b, e.path()));
+                        }
+                    }
+                }
+            }
+            files.into_iter().try_for_each(|(b, p)| fresh.load_index(b, &p))
+        } else {
+            rt.block_on(fresh.load_all())
+        };
+        match res {
             Ok(()) => {
                 self.im = fresh;
                 self.m.pending = self.m.disk_pending;
                 true
             }
             Err(e) => {
-                self.h.violation("C05|reload|load_all-error".to_string(), "a fresh IndexManager could not load the files written by save_all/flush", json!({"error": e.to_string()}));
+                self.h.violation(if per_file { "C05|reload|load_index-error".to_string() } else { "C05|reload|load_all-error".to_string() }, "a fresh IndexManager could not load the files written by save_all/flush", json!({"error": e.to_string()}));
                 false
             }
         }
@@ -454,6 +481,7 @@ fn run_index(ctx: &Ctx, kind: &'static str, idx: usize, rng: &mut Rng) -> Result
                 82..=86 => "reload_saved",
                 87..=88 => "reload_unsaved",
                 89..=90 => "clear_bucket",
+                91 => "clear",
                 _ => "probe",
             }
         };
@@ -675,7 +703,8 @@ fn run_index(ctx: &Ctx, kind: &'static str, idx: usize, rng: &mut Rng) -> Result
                 if do_reload {
                     r.h.log("reload (fresh IndexManager + load_all)".to_string());
                     r.h.stats.add("index.ops.reload", 1);
-                    if r.reload(&rt, &dir) {
+                    let per_file = rng.chance(1, 3);
+                    if r.reload(&rt, &dir, per_file) {
                         r.last_struct = "reload";
                         r.had_reload = true;
                         if r.seen_rm_or_upd {
@@ -711,6 +740,25 @@ fn run_index(ctx: &Ctx, kind: &'static str, idx: usize, rng: &mut Rng) -> Result
                 r.last_struct = "clear_bucket";
                 r.full_compare(rng, "after clear_bucket", cond);
             }
+            "clear" => {
+                // every bucket at once; like clear_bucket it does not write: the files keep the old content until the
+                // next save, so every bucket is dirty
+                r.h.log("clear".to_string());
+                r.h.stats.add("index.ops.clear", 1);
+                r.im.clear();
+                let gone: Vec<[u8; 9]> = r.m.map.keys().copied().collect();
+                r.h.stats.max("index.clear.max_keys_cleared", gone.len() as u64);
+                r.m.map.clear();
+                r.m.removed.extend(gone);
+                while r.m.removed.len() > 64 {
+                    r.m.removed.remove(0);
+                }
+                r.m.dirty = [true; 16];
+                r.m.pending = [false; 16];
+                r.seen_rm_or_upd = true;
+                r.last_struct = "clear";
+                r.full_compare(rng, "after clear", cond);
+            }
             _ => {
                 r.h.stats.add("index.ops.probe_only", 1);
             }
@@ -737,7 +785,8 @@ fn run_index(ctx: &Ctx, kind: &'static str, idx: usize, rng: &mut Rng) -> Result
             r.h.log("final save_all + reload".to_string());
             r.h.stats.add("index.ops.save_all", 1);
             r.h.stats.add("index.ops.reload", 1);
-            if r.reload(&rt, &dir) {
+            let per_file = rng.chance(1, 3);
+            if r.reload(&rt, &dir, per_file) {
                 r.last_struct = "reload";
                 r.had_reload = true;
                 if r.seen_rm_or_upd {
@@ -1005,6 +1054,7 @@ fn run_residency(ctx: &Ctx, kind: &'static str, idx: usize, rng: &mut Rng) -> Re
                 73..=80 => "load",
                 81..=83 if use_container => "read_only_phase",
                 84..=87 if use_container => "container_remove",
+                88..=92 if use_container => "container_trait_calls",
                 _ => "probe",
             }
         };
@@ -1200,6 +1250,9 @@ fn run_residency(ctx: &Ctx, kind: &'static str, idx: usize, rng: &mut Rng) -> Re
                             ("delete_keys", c.delete_keys(&[k]).is_ok()),
                             ("remove", rt.block_on(c.remove(&k)).is_ok()),
                         ];
+                        // not mutators of the map: whatever they answer on a read-only container, the state stays
+                        r.h.stats.add(&format!("residency.read_only.reserve.returned_ok={}", rt.block_on(c.reserve(&k)).is_ok()), 1);
+                        r.h.stats.add(&format!("residency.read_only.flush.returned_ok={}", c.flush().is_ok()), 1);
                         for (name, ok) in results {
                             if ok {
                                 all_err = false;
@@ -1217,6 +1270,39 @@ fn run_residency(ctx: &Ctx, kind: &'static str, idx: usize, rng: &mut Rng) -> Re
                     r.read_only = false;
                     touched.push(k);
                 }
+            }
+            "container_trait_calls" => {
+                // the Container face of the residency container: query() is is_resident(); reserve() is not a mark
+                // ("a no-op until mark_resident is called"); read()/write() carry no residency information. None of
+                // them is a mark, so none of them may change what is_resident answers.
+                let k = r.pick_known(rng);
+                r.h.log(format!("Container::query/reserve/read/write {}", hex::encode(&k[..6])));
+                r.h.stats.add("residency.ops.container_trait_calls", 1);
+                if let ResSubject::Container(c) = &r.s {
+                    let exp = r.m.get(&k).is_some_and(|s| s.resident);
+                    let q = rt.block_on(c.query(&k));
+                    let rs = rt.block_on(c.reserve(&k)).is_ok();
+                    let mut buf = [0u8; 64];
+                    let rd = rt.block_on(c.read(&k, 0, 64, &mut buf)).is_ok();
+                    let wr = rt.block_on(c.write(&k, b"payload")).is_ok();
+                    let q2 = rt.block_on(c.query(&k));
+                    let last = r.m.get(&k).map_or("never-marked", |s| s.last_mark);
+                    let since = r.since();
+                    r.h.stats.add(&format!("residency.container.reserve.ok={rs}"), 1);
+                    r.h.stats.add(&format!("residency.container.read.ok={rd}"), 1);
+                    r.h.stats.add(&format!("residency.container.write.ok={wr}"), 1);
+                    for (when, got) in [("before", q), ("after-reserve-read-write", q2)] {
+                        match got {
+                            Ok(g) if g == exp => r.h.stats.add("residency.container.query.agrees", 1),
+                            Ok(g) => {
+                                let rel = if exp { "false-for-resident-key" } else { "true-for-non-resident-key" };
+                                r.h.violation(format!("C05|ResidencyContainer::query|{rel}|last-mark={last}|{since}|{when}"), "Container::query of the residency container disagrees with the latest mark of the key", json!({"key": hex::encode(k), "expected": exp, "got": g}));
+                            }
+                            Err(_) => r.h.stats.add("residency.container.query.err", 1),
+                        }
+                    }
+                }
+                touched.push(k);
             }
             _ => r.h.stats.add("residency.ops.probe_only", 1),
         }
@@ -1269,6 +1355,476 @@ fn run_residency(ctx: &Ctx, kind: &'static str, idx: usize, rng: &mut Rng) -> Re
 }
 
 // ===========================================================================
+// UpdateSection / UpdatePage driven directly (the append-only log the index buckets are built on; public types)
+// ===========================================================================
+
+type LogEntry = ([u8; 9], Loc, UpdateStatus);
+
+fn same_entry(e: &UpdateEntry, m: &LogEntry) -> bool {
+    e.ekey == m.0 && e.archive_location.archive_id == m.1.0 && e.archive_location.archive_offset == m.1.1 && e.encoded_size == m.1.2 && e.status == m.2
+}
+
+fn run_update_section(ctx: &Ctx, kind: &'static str, idx: usize, rng: &mut Rng) -> Result<(), String> {
+    let mut h = Hist { ctx, kind, idx, trace: Vec::new(), stats: Stats::default(), hash: 0x0c05_5ec7 };
+    // capacities: the 60-page minimum (new / default / with_capacity at or below the minimum) and larger sections
+    let (ctor, mut sec): (&'static str, UpdateSection) = match rng.below(8) {
+        0 => ("new", UpdateSection::new()),
+        1 => ("default", UpdateSection::default()),
+        2 => ("with_capacity(0)", UpdateSection::with_capacity(0)),
+        3 => ("with_capacity(min)", UpdateSection::with_capacity(0x7800)),
+        4 => ("with_capacity(min+1page)", UpdateSection::with_capacity(0x7800 + 512)),
+        5 => ("with_capacity(min+511)", UpdateSection::with_capacity(0x7800 + 511)),
+        6 => ("with_capacity(min+7pages)", UpdateSection::with_capacity(0x7800 + 7 * 512)),
+        _ => ("with_capacity(2*min)", UpdateSection::with_capacity(2 * 0x7800)),
+    };
+    let capc = if sec.capacity_pages() == 60 { "capacity=min" } else { "capacity=above-min" };
+    h.stats.add(&format!("update_section.histories.{ctor}"), 1);
+    h.stats.max("update_section.max_capacity_pages", sec.capacity_pages() as u64);
+    h.log(format!("{ctor} capacity_pages={}", sec.capacity_pages()));
+    let mut model: Vec<LogEntry> = Vec::new();
+    let pool: Vec<[u8; 9]> = (0..rng.urange(8, 400)).map(|_| rng.array::<9>()).collect();
+    // two of three histories are long enough to fill the section (and do not clear it before it has been full)
+    let fill_mode = rng.chance(2, 3);
+    let n_ops = if fill_mode { sec.capacity_pages() * 21 * 10 / 9 + rng.urange(100, 500) } else { rng.urange(50, 1200) };
+    let mut reached_full = false;
+    let mut round_trips = 0u64;
+    let mut refusals = 0u64;
+    let newest = |model: &[LogEntry], k: &[u8; 9]| model.iter().rev().find(|e| e.0 == *k).copied();
+    let check_search = |h: &mut Hist<'_>, sec: &UpdateSection, model: &[LogEntry], k: &[u8; 9], op: &str| {
+        let got = sec.search(k);
+        let exp = newest(model, k);
+        let ok = match (&got, &exp) {
+            (None, None) => true,
+            (Some(g), Some(e)) => same_entry(g, e),
+            _ => false,
+        };
+        if !ok {
+            let rel = match (&got, &exp) {
+                (None, Some(_)) => "appended-key-not-found",
+                (Some(_), None) => "never-appended-key-found",
+                _ => "not-the-most-recent-entry",
+            };
+            h.violation(format!("C05|UpdateSection::search|{rel}|after={op}|{capc}"), "search() does not return the most recent entry appended for the key", json!({"key": hex::encode(k), "expected": exp.map(|e| (e.1, e.2 as u8)), "got": got.map(|g| (g.archive_location.archive_id, g.archive_location.archive_offset, g.encoded_size, g.status as u8))}));
+        }
+    };
+    let compare_all = |h: &mut Hist<'_>, sec: &UpdateSection, model: &[LogEntry], why: &str| {
+        h.stats.add("update_section.full_comparisons", 1);
+        let all: Vec<&UpdateEntry> = sec.all_entries().collect();
+        let same = all.len() == model.len() && all.iter().zip(model).all(|(e, m)| same_entry(e, m));
+        if !same {
+            let first = all.iter().zip(model).position(|(e, m)| !same_entry(e, m));
+            h.violation(format!("C05|UpdateSection::all_entries|differs-from-appended-sequence|{why}|{capc}"), "the entries of the section are not the successfully appended ones, oldest first", json!({"appended": model.len(), "enumerated": all.len(), "first_difference": first}));
+        }
+        if sec.entry_count() != model.len() {
+            h.violation(format!("C05|UpdateSection::entry_count|differs-from-appended-count|{why}|{capc}"), "entry_count differs from the number of successfully appended entries", json!({"appended": model.len(), "entry_count": sec.entry_count()}));
+        }
+        if all.iter().any(|e| !e.validate_hash_guard()) {
+            h.stats.add("update_section.hash_guard_invalid(not judged)", 1);
+        }
+        if sec.page_count() != model.len().div_ceil(21) {
+            h.stats.add("update_section.page_count_differs_from_ceil(n/21)(not judged)", 1);
+        }
+    };
+    for opi in 0..n_ops {
+        let r = rng.below(1000);
+        if r < 900 {
+            let k = *rng.pick(&pool);
+            let loc = gen_loc(rng, &mut h.stats);
+            let st = *rng.pick(&[UpdateStatus::Normal, UpdateStatus::Normal, UpdateStatus::Delete, UpdateStatus::HeaderNonResident, UpdateStatus::DataNonResident]);
+            let was_full = sec.is_full();
+            let before = sec.entry_count();
+            let ok = sec.append(UpdateEntry::new(k, ArchiveLocation { archive_id: loc.0, archive_offset: loc.1 }, loc.2, st));
+            h.log(format!("append {} {:?} {} -> {ok}", hex::encode(&k[..4]), loc, st as u8));
+            h.stats.add(&format!("update_section.ops.append.{ok}"), 1);
+            if ok {
+                model.push((k, loc, st));
+                if sec.entry_count() != before + 1 {
+                    h.violation(format!("C05|UpdateSection::append|returns-true-but-entry-count-not-incremented|{capc}"), "append returned true but entry_count did not grow by one", json!({"before": before, "after": sec.entry_count()}));
+                }
+                if was_full {
+                    h.violation(format!("C05|UpdateSection::is_full|true-but-append-succeeds|{capc}"), "is_full() was true and the next append was accepted", json!({"entries": before}));
+                }
+            } else {
+                refusals += 1;
+                reached_full = true;
+                h.stats.max("update_section.max_entries_at_refusal", before as u64);
+                if sec.entry_count() != before {
+                    h.violation(format!("C05|UpdateSection::append|returns-false-but-entry-count-changed|{capc}"), "append returned false but entry_count changed", json!({"before": before, "after": sec.entry_count()}));
+                }
+                if !was_full {
+                    h.violation(format!("C05|UpdateSection::append|returns-false-although-is_full-is-false|{capc}"), "append refused an entry although is_full() was false", json!({"entries": before, "capacity_pages": sec.capacity_pages()}));
+                }
+            }
+            check_search(&mut h, &sec, &model, &k, if ok { "append-true" } else { "append-false" });
+        } else if r < 960 {
+            let k = if rng.bool() { *rng.pick(&pool) } else { rng.array::<9>() };
+            h.stats.add("update_section.ops.search", 1);
+            check_search(&mut h, &sec, &model, &k, "probe");
+        } else if r < 990 {
+            // persistence of the section: serialise, parse, continue on the parsed copy
+            let bytes = sec.to_bytes();
+            let back = UpdateSection::from_bytes(&bytes);
+            h.log(format!("to_bytes ({} bytes) + from_bytes", bytes.len()));
+            h.stats.add("update_section.ops.round_trip", 1);
+            round_trips += 1;
+            if back.capacity_pages() != sec.capacity_pages() {
+                h.stats.add("update_section.capacity_changed_by_round_trip(not judged)", 1);
+            }
+            if back.should_sync() != sec.should_sync() {
+                h.stats.add("update_section.should_sync_changed_by_round_trip(not judged)", 1);
+            }
+            sec = back;
+            compare_all(&mut h, &sec, &model, "after-round-trip");
+            for k in pool.iter().take(24) {
+                check_search(&mut h, &sec, &model, k, "round-trip");
+            }
+        } else if r < 995 && (!fill_mode || (reached_full && rng.chance(1, 4))) {
+            h.log("clear".to_string());
+            h.stats.add("update_section.ops.clear", 1);
+            sec.clear();
+            model.clear();
+            if sec.is_full() {
+                h.violation(format!("C05|UpdateSection::is_full|true-for-empty-section|{capc}"), "is_full() is true right after clear()", json!({}));
+            }
+            compare_all(&mut h, &sec, &model, "after-clear");
+        } else {
+            compare_all(&mut h, &sec, &model, "probe");
+        }
+        if (opi + 1) % 200 == 0 {
+            compare_all(&mut h, &sec, &model, "every-200-operations");
+        }
+    }
+    compare_all(&mut h, &sec, &model, "final");
+    h.stats.max("update_section.max_entries", model.len() as u64);
+    if reached_full {
+        h.stats.add("update_section.histories.reached_full", 1);
+    }
+    h.stats.add("update_section.refused_appends", refusals);
+
+    // one page on its own: push until it refuses, round trip
+    let mut page = UpdatePage::new();
+    let mut pm: Vec<LogEntry> = Vec::new();
+    if !page.is_empty() {
+        h.violation("C05|UpdatePage::is_empty|false-for-new-page".to_string(), "a new page is not empty", json!({}));
+    }
+    for _ in 0..rng.urange(1, 30) {
+        let k: [u8; 9] = rng.array::<9>();
+        let loc = gen_loc(rng, &mut h.stats);
+        let was_full = page.is_full();
+        let before = page.len();
+        let ok = page.push(UpdateEntry::new(k, ArchiveLocation { archive_id: loc.0, archive_offset: loc.1 }, loc.2, UpdateStatus::Normal));
+        h.stats.add(&format!("update_page.ops.push.{ok}"), 1);
+        if ok {
+            pm.push((k, loc, UpdateStatus::Normal));
+        }
+        let after = page.len();
+        if (ok && (after != before + 1 || was_full)) || (!ok && (after != before || !was_full)) {
+            h.violation(format!("C05|UpdatePage::push|returns-{ok}-but-len-{before}-to-{}-is_full-{was_full}", if after == before { "unchanged" } else { "changed" }), "push() on an update page does not tell the truth about whether the entry was added", json!({"before": before, "after": after, "was_full": was_full}));
+        }
+    }
+    let back = UpdatePage::from_bytes(&page.to_bytes());
+    let same = match &back {
+        Some(b) => b.entries().len() == pm.len() && b.entries().iter().zip(&pm).all(|(e, m)| same_entry(e, m)),
+        None => pm.is_empty(),
+    };
+    if !same {
+        h.violation("C05|UpdatePage|round-trip-differs".to_string(), "to_bytes + from_bytes of an update page does not give the pushed entries back", json!({"pushed": pm.len(), "parsed": back.map(|b| b.len())}));
+    }
+    let nontrivial = reached_full && round_trips > 0;
+    if nontrivial {
+        ctx.eval_nontrivial(h.hash);
+    } else {
+        ctx.eval();
+    }
+    h.stats.flush(ctx);
+    Ok(())
+}
+
+// ===========================================================================
+// DynamicContainer as a persistent key map (write / remove / query / entry_count / flush / reopen), and the marks it
+// makes itself when a read hits a truncated data file
+// ===========================================================================
+
+fn dc_ekey(payload: &[u8]) -> [u8; 16] {
+    let mut v = Vec::with_capacity(payload.len() + 9);
+    v.extend_from_slice(b"BLTE\0\0\0\0N");
+    v.extend_from_slice(payload);
+    md5::compute(&v).0
+}
+
+struct DcRun<'a> {
+    h: Hist<'a>,
+    present: BTreeMap<[u8; 16], usize>,
+    removed: Vec<[u8; 16]>,
+    res: BTreeMap<[u8; 16], ResState>,
+    last_struct: &'static str,
+}
+
+struct DcOpen {
+    c: DynamicContainer,
+    rc: std::sync::Arc<ResidencyContainer>,
+}
+
+fn dc_open(rt: &tokio::runtime::Runtime, root: &Path) -> Result<DcOpen, String> {
+    let rc = std::sync::Arc::new(open_container(rt, &root.join("residency"), AccessMode::ReadWrite)?);
+    let c = DynamicContainer::builder(root.join("store")).residency(rc.clone()).build().map_err(|e| format!("DynamicContainer build: {e}"))?;
+    rt.block_on(c.open()).map_err(|e| format!("DynamicContainer::open: {e}"))?;
+    Ok(DcOpen { c, rc })
+}
+
+impl DcRun<'_> {
+    fn query_check(&mut self, rt: &tokio::runtime::Runtime, o: &DcOpen, k: &[u8; 16], after: &str) {
+        self.h.stats.add("dyn.probes", 1);
+        let exp = self.present.contains_key(k);
+        match rt.block_on(o.c.query(k)) {
+            Ok(got) if got == exp => {}
+            Ok(got) => {
+                let rel = if got { "true-for-absent-key" } else { "false-for-present-key" };
+                let ls = self.last_struct;
+                self.h.violation(format!("C05|DynamicContainer::query|{rel}|last-structural-op={ls}"), "query() disagrees with the map of written and not removed keys", json!({"key": hex::encode(k), "expected": exp, "after_op": after}));
+            }
+            Err(e) => self.h.stats.add(&format!("dyn.query.err.{}", e.to_string().len().min(1)), 1),
+        }
+    }
+    fn full_compare(&mut self, rt: &tokio::runtime::Runtime, o: &DcOpen, why: &str) {
+        self.h.stats.add("dyn.full_comparisons", 1);
+        let keys: Vec<[u8; 16]> = self.present.keys().copied().chain(self.removed.iter().copied()).collect();
+        for k in keys {
+            self.query_check(rt, o, &k, why);
+        }
+        let ec = o.c.entry_count();
+        if ec != self.present.len() {
+            let ls = self.last_struct;
+            self.h.violation(format!("C05|DynamicContainer::entry_count|differs-from-model|last-structural-op={ls}"), "entry_count differs from the number of written and not removed keys", json!({"why": why, "entry_count": ec, "model_len": self.present.len()}));
+        }
+        let marks: Vec<([u8; 16], ResState)> = self.res.iter().map(|(k, s)| (*k, *s)).collect();
+        for (k, st) in marks {
+            let got = o.rc.is_resident(&k);
+            if got != st.resident {
+                let rel = if st.resident { "false-for-resident-key" } else { "true-for-non-resident-key" };
+                self.h.violation(format!("C05|DynamicContainer+ResidencyContainer::is_resident|{rel}|last-mark={}", st.last_mark), "the residency container attached to the dynamic container disagrees with the latest mark of the key", json!({"key": hex::encode(k), "why": why}));
+            }
+        }
+    }
+}
+
+fn run_dyncontainer(ctx: &Ctx, kind: &'static str, idx: usize, rng: &mut Rng) -> Result<(), String> {
+    let rt = tokio::runtime::Builder::new_current_thread().enable_all().build().map_err(|e| e.to_string())?;
+    let td = mk_tempdir(idx).map_err(|e| format!("tempdir: {e}"))?;
+    let root = td.path().to_path_buf();
+    let mut r = DcRun { h: Hist { ctx, kind, idx, trace: Vec::new(), stats: Stats::default(), hash: 0xd1c05 }, present: BTreeMap::new(), removed: Vec::new(), res: BTreeMap::new(), last_struct: "none" };
+    let mut o = dc_open(&rt, &root)?;
+    let n_ops = rng.urange(20, 120);
+    r.h.stats.add(&format!("histories.{kind}"), 1);
+    r.h.log(format!("open n_ops={n_ops}"));
+    let mut counter = 0u64;
+    let mut truncated = false;
+    let mut seen_remove = false;
+    let mut nontrivial = false;
+    let truncate_at = if rng.chance(1, 2) { rng.urange(8, n_ops) } else { usize::MAX };
+    for opi in 0..n_ops {
+        let x = rng.below(100);
+        let op: &'static str = if opi == truncate_at && !truncated && r.present.len() >= 3 {
+            "truncate"
+        } else if opi < 3 {
+            "write"
+        } else {
+            match x {
+                0..=37 => "write",
+                38..=52 => "remove",
+                53..=57 => "remove_absent",
+                58..=69 => "query",
+                70..=77 => "entry_count",
+                78..=82 => "flush_bucket",
+                83..=86 => "flush_all",
+                _ => "reopen",
+            }
+        };
+        match op {
+            "write" => {
+                counter += 1;
+                let n = *rng.pick(&[0usize, 1, 30, 100, 700, 3000]);
+                let mut payload = rng.bytes(n);
+                if !rng.chance(1, 10) || r.present.is_empty() {
+                    payload.extend_from_slice(&counter.to_le_bytes());
+                    payload.extend_from_slice(&(idx as u32).to_le_bytes());
+                } else {
+                    // the same content again: same key, the map does not grow
+                    payload = Vec::new();
+                    payload.extend_from_slice(&1u64.to_le_bytes());
+                    payload.extend_from_slice(&(idx as u32).to_le_bytes());
+                }
+                let ekey = dc_ekey(&payload);
+                r.h.log(format!("write len={} key={}", payload.len(), hex::encode(&ekey[..5])));
+                r.h.stats.add("dyn.ops.write", 1);
+                match rt.block_on(o.c.write(&rng.array::<16>(), &payload)) {
+                    Ok(()) => {
+                        if matches!(rt.block_on(o.c.query(&ekey)), Ok(true)) {
+                            r.h.stats.add("dyn.key_derivation.agrees", 1);
+                            r.present.insert(ekey, payload.len());
+                            r.removed.retain(|k| k != &ekey);
+                            // what a downloader does after storing an object
+                            if o.rc.mark_resident(&ekey).is_ok() {
+                                r.res.insert(ekey, ResState { resident: true, last_mark: "mark_resident" });
+                            }
+                        } else {
+                            // not this property's subject (C04: ok-but-object-not-indexed); the object is left out
+                            r.h.stats.add("dyn.key_derivation.differs_or_write_not_visible", 1);
+                        }
+                    }
+                    Err(e) => r.h.stats.add(&format!("dyn.write.err.{}", e.to_string().len().min(1)), 1),
+                }
+            }
+            "remove" | "remove_absent" => {
+                let k = if op == "remove" && !r.present.is_empty() {
+                    let i = rng.usize_below(r.present.len());
+                    r.present.keys().nth(i).copied().unwrap_or([0; 16])
+                } else if !r.removed.is_empty() && rng.bool() {
+                    *rng.pick(&r.removed)
+                } else {
+                    rng.array::<16>()
+                };
+                let was = r.present.contains_key(&k);
+                r.h.log(format!("remove {} present={was}", hex::encode(&k[..5])));
+                r.h.stats.add("dyn.ops.remove", 1);
+                match rt.block_on(o.c.remove(&k)) {
+                    Ok(()) => {
+                        if r.present.remove(&k).is_some() {
+                            r.removed.push(k);
+                            seen_remove = true;
+                        }
+                        if matches!(rt.block_on(o.c.query(&k)), Ok(true)) {
+                            r.h.violation("C05|DynamicContainer::remove|returns-ok-but-key-still-visible".to_string(), "remove() returned Ok but query() still reports the key", json!({"key": hex::encode(k), "was_present": was}));
+                            r.present.insert(k, 0);
+                            r.removed.retain(|x| x != &k);
+                        }
+                    }
+                    Err(e) => {
+                        r.h.stats.add(&format!("dyn.remove.err.{}", e.to_string().len().min(1)), 1);
+                        r.query_check(&rt, &o, &k, "remove-err");
+                    }
+                }
+            }
+            "query" => {
+                r.h.stats.add("dyn.ops.query", 1);
+                let k = match rng.below(3) {
+                    0 if !r.present.is_empty() => r.present.keys().nth(rng.usize_below(r.present.len())).copied().unwrap_or([0; 16]),
+                    1 if !r.removed.is_empty() => *rng.pick(&r.removed),
+                    _ => rng.array::<16>(),
+                };
+                r.query_check(&rt, &o, &k, "query");
+            }
+            "entry_count" => {
+                r.h.stats.add("dyn.ops.entry_count", 1);
+                let ec = o.c.entry_count();
+                if ec != r.present.len() {
+                    let ls = r.last_struct;
+                    r.h.violation(format!("C05|DynamicContainer::entry_count|differs-from-model|last-structural-op={ls}"), "entry_count differs from the number of written and not removed keys", json!({"entry_count": ec, "model_len": r.present.len()}));
+                }
+            }
+            "flush_bucket" | "flush_all" => {
+                r.h.log(op.to_string());
+                r.h.stats.add(&format!("dyn.ops.{op}"), 1);
+                let res = if op == "flush_all" { o.c.flush_all_updates() } else { o.c.flush_bucket(rng.below(16) as u8) };
+                if res.is_err() {
+                    r.h.stats.add("dyn.flush.err", 1);
+                }
+                r.last_struct = "flush";
+                if seen_remove {
+                    nontrivial = true;
+                }
+                r.full_compare(&rt, &o, op);
+            }
+            "reopen" => {
+                r.h.log("reopen".to_string());
+                r.h.stats.add("dyn.ops.reopen", 1);
+                if o.rc.flush().is_err() {
+                    r.h.stats.add("dyn.residency_flush.err", 1);
+                    continue;
+                }
+                drop(o);
+                o = dc_open(&rt, &root)?;
+                r.last_struct = "reopen";
+                if seen_remove {
+                    nontrivial = true;
+                }
+                r.full_compare(&rt, &o, "after reopen");
+            }
+            _ => {
+                // "truncate": the data file loses the tail of the object stored last while the store is closed; the
+                // read that hits it makes the container mark the key itself (index status + residency span)
+                truncated = true;
+                if o.rc.flush().is_err() {
+                    continue;
+                }
+                drop(o);
+                let store = root.join("store");
+                let last = {
+                    let mut im = IndexManager::new(&store);
+                    rt.block_on(im.load_all()).map_err(|e| format!("load_all: {e}"))?;
+                    im.iter_entries().map(|(_, e)| e).max_by_key(|e| (e.archive_id(), e.archive_offset()))
+                };
+                let mut cut: Option<[u8; 16]> = None;
+                if let Some(e) = last {
+                    let data = store.join(format!("data.{:03}", e.archive_id()));
+                    let len = std::fs::metadata(&data).map(|m| m.len()).unwrap_or(0);
+                    let key = r.present.keys().find(|k| k[..9] == e.key).copied();
+                    if let (Some(k), true) = (key, u64::from(e.archive_offset()) + u64::from(e.size) == len && e.size >= 60) {
+                        let new_len = u64::from(e.archive_offset()) + u64::from(e.size) / 2;
+                        if std::fs::OpenOptions::new().write(true).open(&data).and_then(|f| f.set_len(new_len)).is_ok() {
+                            cut = Some(k);
+                            r.h.log(format!("data file truncated while closed {len} -> {new_len}: cuts {}", hex::encode(&k[..5])));
+                        }
+                    }
+                }
+                o = dc_open(&rt, &root)?;
+                r.last_struct = "reopen";
+                if let Some(k) = cut {
+                    r.h.stats.add("dyn.ops.truncation", 1);
+                    let mut buf = vec![0u8; r.present[&k] + 16];
+                    match rt.block_on(o.c.read(&k, 0, 0, &mut buf)) {
+                        Err(StorageError::TruncatedRead(_)) => {
+                            r.h.stats.add("dyn.truncated_read_observed", 1);
+                            // the container reported the truncation and marks the span non-resident: that is the key's latest mark
+                            r.res.insert(k, ResState { resident: false, last_mark: "truncated-read(mark_span_non_resident)" });
+                            nontrivial = true;
+                        }
+                        Err(_) => r.h.stats.add("dyn.read_of_cut_object.other_error", 1),
+                        Ok(_) => r.h.stats.add("dyn.read_of_cut_object.ok", 1),
+                    }
+                    // the status change is not a removal: the key stays in the map, the count stays
+                    r.full_compare(&rt, &o, "after truncated read");
+                } else {
+                    r.h.stats.add("dyn.truncation_skipped", 1);
+                    r.full_compare(&rt, &o, "after reopen");
+                }
+            }
+        }
+        if (opi + 1) % 20 == 0 {
+            r.full_compare(&rt, &o, "every-20-operations");
+        }
+    }
+    let _ = o.rc.flush();
+    drop(o);
+    let o = dc_open(&rt, &root)?;
+    r.last_struct = "reopen";
+    r.h.stats.add("dyn.ops.reopen", 1);
+    if seen_remove {
+        nontrivial = true;
+    }
+    r.full_compare(&rt, &o, "final after reopen");
+    drop(o);
+    r.h.stats.max("dyn.max_keys_in_model", r.present.len() as u64);
+    if nontrivial {
+        ctx.eval_nontrivial(r.h.hash);
+    } else {
+        ctx.eval();
+    }
+    r.h.stats.flush(ctx);
+    Ok(())
+}
+
+// ===========================================================================
 
 fn run_one(ctx: &Ctx, kind: &'static str, idx: usize) {
     let stream = 50_000 + (KINDS.iter().position(|k| *k == kind).unwrap_or(0) as u64) * 10_000_000 + idx as u64;
@@ -1276,6 +1832,8 @@ fn run_one(ctx: &Ctx, kind: &'static str, idx: usize) {
     LAST_PANIC.with(|p| *p.borrow_mut() = None);
     let res = std::panic::catch_unwind(std::panic::AssertUnwindSafe(|| match kind {
         "index-short" | "index-long" => run_index(ctx, kind, idx, &mut rng),
+        "update-section" => run_update_section(ctx, kind, idx, &mut rng),
+        "dynamic-container" => run_dyncontainer(ctx, kind, idx, &mut rng),
         _ => run_residency(ctx, kind, idx, &mut rng),
     }));
     match res {
@@ -1364,12 +1922,14 @@ fn main() {
     }
 
     // budgets per kind (quick, thorough), longest first
-    let budgets: [(&'static str, usize); 5] = [
+    let budgets: [(&'static str, usize); 7] = [
         ("index-long", ctx.pick(64, 600)),
         ("residency-batch", ctx.pick(12, 120)),
         ("index-short", ctx.pick(1500, 20_000)),
         ("residency-db", ctx.pick(500, 6000)),
         ("residency-container", ctx.pick(300, 4000)),
+        ("update-section", ctx.pick(160, 2000)),
+        ("dynamic-container", ctx.pick(240, 3000)),
     ];
     let mut work: Vec<(&'static str, usize)> = Vec::new();
     for (k, n) in budgets {
@@ -1426,6 +1986,22 @@ fn main() {
             "residency.ops.delete_keys_batch(>10000)",
             "residency.ops.save",
             "residency.ops.load.save_first=true",
+            // coverage-driven extension
+            "index.ops.clear",
+            "index.ops.reload_via_load_index",
+            "residency.ops.container_trait_calls",
+            "residency.container.query.agrees",
+            "update_section.ops.append.true",
+            "update_section.ops.append.false",
+            "update_section.ops.round_trip",
+            "update_section.histories.reached_full",
+            "update_page.ops.push.false",
+            "dyn.ops.write",
+            "dyn.ops.remove",
+            "dyn.ops.reopen",
+            "dyn.ops.entry_count",
+            "dyn.key_derivation.agrees",
+            "dyn.truncated_read_observed",
         ] {
             if ctx.get_obs(k) == 0 {
                 ctx.inconclusive(&format!("workload never exercised {k}"));
